@@ -337,6 +337,27 @@ func colonOnlyPrefix(e0, ek error) string {
 	return "colon-only-prefix"
 }
 
+// colonOnlyText: e holds a wrapper (of a type without encoder) whose text is ": " + cause text, and the two
+// renderings are equal once the separators such layers contribute are dropped from both.
+func colonOnlyText(e error, a, b string) bool {
+	has := false
+	visitAll(e, func(x error) {
+		if c := errors.UnwrapOnce(x); c != nil && x.Error() == ": "+c.Error() && reflect.TypeOf(x).String() != "*errors.withMessage" {
+			has = true
+		}
+	})
+	if !has {
+		return false
+	}
+	norm := func(t string) string {
+		for strings.Contains(t, ": : ") {
+			t = strings.Replace(t, ": : ", ": ", 1)
+		}
+		return strings.TrimPrefix(t, ": ")
+	}
+	return a != b && norm(a) == norm(b)
+}
+
 func isGrpcStatusKey(k string) bool {
 	return strings.HasSuffix(k, "status/*status.Error") || strings.HasSuffix(k, "status/*status.statusError")
 }
@@ -1547,6 +1568,7 @@ func init() {
 			return
 		}
 		arrowReported := false
+		colonReported := false
 		noFormatReported := false
 		check := func(where string, e error) bool {
 			text := e.Error()
@@ -1585,6 +1607,16 @@ func init() {
 							if !arrowReported {
 								o.fail(fmt.Sprintf("%s of %s is not Error() (%s)", v, tg.name, where), "operror-arrow-spacing", firstDiff(got, text))
 								arrowReported = true
+							}
+							text = got
+							continue
+						}
+						if colonOnlyText(e, got, text) {
+							// recorded finding colon-only-prefix: the engine derives the layer's own message with the
+							// same prefix extraction as the encoder and drops a message that is the separator alone
+							if !colonReported {
+								o.fail(fmt.Sprintf("%s of %s is not Error() (%s)", v, tg.name, where), "colon-only-prefix", firstDiff(got, text))
+								colonReported = true
 							}
 							text = got
 							continue
